@@ -38,7 +38,7 @@ SELECTOR_EXTS = ("html", "html.j2", "tmpl.xml", ".HTML", "page.HTML.J2", "html")
 
 
 # configuration axes the property's text does not exclude (sampled per render)
-AXES = ("plain", "plain", "async", "async_render", "sandbox", "immutable_sandbox", "unoptimized", "finalize", "overlay", "bccache",
+AXES = ("plain", "plain", "debug_undefined", "mixed_undefined", "async", "async_render", "sandbox", "immutable_sandbox", "unoptimized", "finalize", "overlay", "bccache",
         "generate", "stream", "line_statements", "trim", "policies", "undefined")
 
 
@@ -63,6 +63,14 @@ class _O:
 
     def __len__(self):
         return len(self.v)
+
+
+def make_fn(payload):
+    """a plain callable from the context (not a macro): returns DATA, optionally around what caller() renders"""
+    def fn(*args, caller=None, **kw):
+        inner = caller(payload) if caller is not None and args and args[0] == "__q__" else (caller() if caller is not None else "")
+        return payload + "".join(str(a) for a in args) + str(inner)
+    return fn
 
 
 def value_kind(rng, s):
@@ -94,6 +102,10 @@ def make_env(jinja2, axis, loader, autoescape, build_dir=None):
         kw.update(trim_blocks=True, lstrip_blocks=True, keep_trailing_newline=True)
     elif axis == "undefined":
         kw["undefined"] = jinja2.ChainableUndefined
+    elif axis == "debug_undefined":
+        kw["undefined"] = jinja2.make_logging_undefined(base=jinja2.DebugUndefined) if hash(str(loader)) % 2 else jinja2.DebugUndefined
+    elif axis == "mixed_undefined":
+        kw["undefined"] = type("U", (jinja2.ChainableUndefined, jinja2.DebugUndefined), {})
     elif axis == "bccache" and build_dir:
         kw["bytecode_cache"] = jinja2.FileSystemBytecodeCache(build_dir)
     if axis == "overlay":
@@ -226,6 +238,10 @@ EXPRS = [
     "([a]|list)|string|replace(b, c)", "{'k': [a]}|tojson", "[a, b]|center(40)", "[a]|indent(width=b)", "[a, b]|trim", "(a, b)|title",
     "[a, b]|truncate(9, true, c)", "[a]|wordwrap(3, true, b)", "{'k': a}|string|urlize", "[m, a]|join", "[a, m]|join", "[m, a, m]|join(c)",
     "[m, b]|join(', ')", "[b, m]|join(', ')", "[m, 1]|join('-')",
+    # failed lookups whose KEY is hostile data (the undefined object's text may name it), plain callables from the context
+    "{'x': 1}[a]", "missing[a]", "{}[a][b]", "{}[a].x", "a.nope", "a[b]", "[1][a|length]", "{}[a]|default(b)", "({}[a] ~ b)", "{}[a]|string",
+    "[{}[a], m]|join(b)", "{'k': {}[a]}|xmlattr", "fn()", "fn(a)", "fn(a) ~ b", "[fn(a), m]|join(c)", "fn(m)", "fn|string|length",
+    "[m, a]|join(m)", "[m, m]|join(m)", "[a, m, fn(a)]|join(m)", "[m, a]|join(fn(b))",
     # every built-in test in an output expression and inside select / reject / selectattr
     "a is string", "m is string", "m is escaped", "a is escaped", "a is eq(b)", "m is eq(a)", "a is ne(m)", "a is lt(b)", "m is le(a)", "a is gt(m)",
     "m is ge(m)", "a is sameas(a)", "a is in(m)", "m is in([a, m])", "a is lower", "m is upper", "a is defined", "missing is undefined",
@@ -260,6 +276,8 @@ WRAPPERS = [
     "{%% set r | default(a, true) %%}{%% endset %%}{{ r }}{{ %s }}",
     "{%% set r | title | trim(b) %%}{{ %s }}{%% endset %%}{{ r }}|{{ r ~ c }}",
     "{%% set r | upper %%}{{ %s }}{%% endset %%}{{ r }}",
+    "{%% call fn() %%}{{ %s }}{%% endcall %%}",
+    "{%% call fn(a) %%}x{%% endcall %%}{{ %s }}",
     "{%% filter upper %%}{{ %s }}{%% endfilter %%}",
     "{%% filter striptags %%}{{ %s }}{%% endfilter %%}",
     "{%% filter replace(a, b) %%}{{ %s }}{%% endfilter %%}",
@@ -566,6 +584,51 @@ def run(ctx):
         else:
             ctx.validated()
 
+    # ---------------- H-interleave: two OVERLAPPING renders of ONE Template object (generate() advanced k pieces, a
+    # full render in between, then the first one finished) must each give what a lone render gives: the eval
+    # context that {% autoescape %} regions mutate belongs to one render
+    for i in range(ctx.size(200, 2500)):
+        g = L.LGen(ctx.rng, neutral=False, safe_ok=False, text=("safe",), ae="01f", depth=3)
+        t = g.program(wrap_flag=ctx.rng.random() < 0.3)
+        if not (L.features(t) & {"ae0", "ae1", "aef"}):
+            continue
+        d, dl = g.data()
+        src = L.pr_body(t)
+        data = {f"n{k}": v for k, v in d.items()}
+        data.update({f"n{k}": v for k, v in dl.items()})
+        b0 = ctx.rng.random() < 0.6
+        data[L.FLAG_NAME] = ctx.rng.random() < 0.5
+        data2 = dict(data, **{L.FLAG_NAME: not data[L.FLAG_NAME]})
+        try:
+            env = jinja2.Environment(autoescape=b0)
+            tm = env.from_string(src)
+            ref1, ref2 = tm.render(data), tm.render(data2)
+            pieces = list(tm.generate(data))
+            k = ctx.rng.randint(1, max(1, len(pieces)))
+            ga = tm.generate(data)
+            got_a = [next(ga) for _ in range(min(k, len(pieces)))]
+            got_b = tm.render(data2)
+            gc = tm.generate(data2)
+            got_c = [next(gc) for _ in range(min(k, len(list(tm.generate(data2)))))]
+            got_a += list(ga)
+            got_c += list(gc)
+        except Exception:
+            ctx.case(); ctx.count("h_interleave_error")
+            continue
+        ctx.case(key=("interleave", src, repr(data), b0, k))
+        ctx.count("h_interleave")
+        bad = None
+        if "".join(got_a) != ref1:
+            bad = f"generate() suspended after {k} pieces while another render ran gives {''.join(got_a)[:120]!r}, alone {ref1[:120]!r}"
+        elif got_b != ref2:
+            bad = f"render() run while a generate() of the same template was suspended gives {got_b[:120]!r}, alone {ref2[:120]!r}"
+        elif "".join(got_c) != ref2:
+            bad = "second interleaved generate() differs from a lone render"
+        if bad:
+            ctx.reject({"kind": "interleave", "source": src, "data": data, "autoescape": b0, "k": k}, bad, "C15:overlapping-renders")
+        else:
+            ctx.validated()
+
     # ---------------- O-T: programs of T inside the hypotheses, three modes
     progs = []
     for i in range(ctx.size(300, 7000)):
@@ -614,6 +677,7 @@ def run(ctx):
                 continue      # a filter block would rewrite the documented markup itself
             src = PRELUDE + (wsrc % e)
             data = {n: value_kind(ctx.rng, ctx.rng.choice(words) + MARK) for n in "abc"}
+            data["fn"] = make_fn(str(data["c"]))
             for mode in MODES:
                 out = render_mode(jinja2, mode, {"main.html": src}, "main.html", data, axis=ctx.rng.choice(AXES), ctx=ctx)
                 n_expr += 1
